@@ -197,6 +197,38 @@ macro_rules! row {
             let $g = &s;
             Ok(format!("{:?}", $get))
         }
+        fn open_live(doc: &str) -> Result<Box<dyn std::any::Any>, String> {
+            Ok(Box::new($open(doc)?))
+        }
+        #[allow(unused_mut, unused_variables)]
+        fn apply_live(any: &mut dyn std::any::Any, vi: usize) -> Result<String, String> {
+            let pair = crate::props::c15::downcast_view($open, any).ok_or("another view type")?;
+            let mut $s = &mut pair.1;
+            let vals = vec![$($val),+];
+            let want: String;
+            if vi < vals.len() {
+                {
+                    let $w = vals[vi].clone();
+                    want = format!("{:?}", $want);
+                }
+                let $v = vals[vi].clone();
+                $set;
+            } else {
+                let $cs = &mut $s;
+                want = $cw.to_string();
+                $cset;
+            }
+            Ok(want)
+        }
+        fn get_live(any: &mut dyn std::any::Any) -> Result<String, String> {
+            let pair = crate::props::c15::downcast_view($open, any).ok_or("another view type")?;
+            let $g = &pair.1;
+            Ok(format!("{:?}", $get))
+        }
+        fn print_live(any: &mut dyn std::any::Any) -> Result<String, String> {
+            let pair = crate::props::c15::downcast_view($open, any).ok_or("another view type")?;
+            Ok($print(&pair.0, &pair.1))
+        }
         Row {
             view: $view,
             accessor: $accessor,
@@ -209,6 +241,10 @@ macro_rules! row {
             skip_priors: $skip,
             run,
             get,
+            open_live,
+            apply_live,
+            get_live,
+            print_live,
         }
     }};
 }
@@ -322,7 +358,7 @@ fn rows_control_source() -> Vec<Row> {
     v.push(str_row!(csrc_para, "name", "Source", "oldsrc", ["hello", "lib-x2"], set_name, name));
     v.push(optstr_row!(csrc, "section", "Section", "net", ["libs", "contrib/utils"], set_section, section));
     v.push(csrc!("priority", "Priority", "extra", clear = true,
-        values = [Priority::Optional, Priority::Required],
+        values = [Priority::Optional, Priority::Required, Priority::Extra],
         set = |s, x| s.set_priority(Some(x)), clear_set = |s| s.set_priority(None), clear_want = "None",
         get = |s| s.priority(), want = |x| Some(x)));
     // the base of csrc_para holds Maintainer, so this row uses the ordinary view
@@ -736,6 +772,21 @@ fn read_control() -> Vec<ReadRow> {
             ("Source: foo\nVcs-Svn: svn://example.com/foo/trunk\n", "Some(Svn { url: \"svn://example.com/foo/trunk\" })"),
             ("Source: foo\nVcs-Hg: https://example.com/hg\n", "Some(Hg { repo_url: \"https://example.com/hg\" })"),
             ("Source: foo\nVcs-Browser: https://example.com/b\n", "None"),
+            ("Source: foo\nVcs-Bzr: https://example.com/bzr/trunk\n", "Some(Bzr { repo_url: \"https://example.com/bzr/trunk\", subpath: None })"),
+            ("Source: foo\nVcs-Cvs: :pserver:anonymous@example.com:/cvs/webwml webwml\n", "Some(Cvs { root: \":pserver:anonymous@example.com:/cvs/webwml\", module: Some(\"webwml\") })"),
+            ("Source: foo\nVcs-Cvs: :pserver:anonymous@example.com:/cvs\nVcs-Browser: https://example.com/b\n", "Some(Cvs { root: \":pserver:anonymous@example.com:/cvs\", module: None })"),
+        ]),
+        // Control::add_source / add_binary: "a control file's source paragraph and binary paragraphs are found by their Source
+        // and Package fields" - also the ones just added, and what is set through the returned view lands in the file
+        read_row!("control::Control", "add_source", |d| { let mut c = control(d)?; { let mut sp = c.add_source("foo"); sp.set_section(Some("net")); } (c.to_string(), c.source().and_then(|x| x.name()), c.binaries().map(|b| b.name()).collect::<Vec<_>>()) }, [
+            ("", "(\"Source: foo\\nSection: net\\n\", Some(\"foo\"), [])"),
+            ("Package: p\n", "(\"Package: p\\n\\nSource: foo\\nSection: net\\n\", Some(\"foo\"), [Some(\"p\")])"),
+            ("# c\nPackage: p\nArchitecture: any", "(\"# c\\nPackage: p\\nArchitecture: any\\n\\nSource: foo\\nSection: net\\n\", Some(\"foo\"), [Some(\"p\")])"),
+        ]),
+        read_row!("control::Control", "add_binary", |d| { let mut c = control(d)?; { let mut bp = c.add_binary("bar"); bp.set_section(Some("net")); } (c.to_string(), c.source().and_then(|x| x.name()), c.binaries().map(|b| b.name()).collect::<Vec<_>>()) }, [
+            ("", "(\"Package: bar\\nSection: net\\n\", None, [Some(\"bar\")])"),
+            ("Source: s\n", "(\"Source: s\\n\\nPackage: bar\\nSection: net\\n\", Some(\"s\"), [Some(\"bar\")])"),
+            ("Source: s\n\nPackage: p\n# t", "(\"Source: s\\n\\nPackage: p\\n# t\\n\\nPackage: bar\\nSection: net\\n\", Some(\"s\"), [Some(\"p\"), Some(\"bar\")])"),
         ]),
         // -- control::Binary readers
         read_row!("control::Binary", "essential", |d| cbinary(d)?.essential(), [
